@@ -283,4 +283,21 @@ def gradParam (toNat : α → Nat) (m : CMAC α) (B : Nat) (X coeff : Nat → Na
 def setParams (m : CMAC α) (p : List α) : CMAC α := { m with params := p }
 end CMAC
 
+/-! ### parameter packing of a `ConcatenatedModel` (`Chain`): optimised layers in layer order -/
+def Layer.numberOfParameters : Layer α → Nat
+  | .dense m => m.numberOfParameters
+  | _ => 0
+def Layer.setParams : Layer α → List α → Layer α
+  | .dense m, p => .dense (m.setParams p)
+  | l, _ => l
+def Chain.numberOfParameters : Chain α → Nat
+  | [] => 0
+  | (l, opt) :: rest => (if opt then l.numberOfParameters else 0) + Chain.numberOfParameters rest
+/-- `ConcatenatedModel::setParameterVector`: every optimised layer takes its slice -/
+def Chain.setParams : Chain α → List α → Chain α
+  | [], _ => []
+  | (l, true) :: rest, p =>
+    (l.setParams (p.take l.numberOfParameters), true) :: Chain.setParams rest (p.drop l.numberOfParameters)
+  | (l, false) :: rest, p => (l, false) :: Chain.setParams rest p
+
 end SharkVerif.Models
